@@ -15,7 +15,10 @@ import (
 	"math/rand"
 	"os"
 	"path/filepath"
+	"runtime"
 	"sort"
+	"sync"
+	"sync/atomic"
 )
 
 // Log is what the rig needs from a WAL instance.
@@ -696,6 +699,9 @@ func cutOffsets(rng *rand.Rand, b, a int64) (cuts []int64, exhaustive bool) {
 	return cuts, false
 }
 
+// chunkSem bounds the extra goroutines used for long cut enumerations.
+var chunkSem = make(chan struct{}, max(2, runtime.GOMAXPROCS(0)))
+
 type tornWorld struct {
 	dir      string
 	files    map[string]bool // original files present in this world (incl. tail)
@@ -756,6 +762,7 @@ func (h *history) tornEnumerate(w *world, tail *mFile, b, a int64, final *mEnt, 
 		}
 		return others[i].n < others[j].n
 	})
+	var copyErrs atomic.Int64
 	mk := func(name string, include map[string]bool) *tornWorld {
 		d := filepath.Join(h.root, name)
 		_ = os.MkdirAll(d, 0o755)
@@ -764,11 +771,11 @@ func (h *history) tornEnumerate(w *world, tail *mFile, b, a int64, final *mEnt, 
 				continue
 			}
 			if err := linkOrCopy(filepath.Join(w.dir, n), filepath.Join(d, n)); err != nil {
-				h.st.add("harness_copy_errors", 1)
+				copyErrs.Add(1)
 			}
 		}
 		if err := copyFile(srcTail, filepath.Join(d, tail.name), a); err != nil {
-			h.st.add("harness_copy_errors", 1)
+			copyErrs.Add(1)
 		}
 		bm := w.m.clone(include)
 		bm.files[tail.name].torn = true
@@ -778,14 +785,13 @@ func (h *history) tornEnumerate(w *world, tail *mFile, b, a int64, final *mEnt, 
 	for _, o := range others {
 		fullSet[o.n] = true
 	}
-	full := mk("torn-full", fullSet)
-	var reduced *tornWorld
+	var redSet map[string]bool
 	budget := int64(96 << 10)
 	if h.drv.ReducedBudget > 0 {
 		budget = h.drv.ReducedBudget
 	}
 	if otherBytes > budget {
-		redSet := map[string]bool{tail.name: true}
+		redSet = map[string]bool{tail.name: true}
 		var cum int64
 		for _, o := range others {
 			if cum+o.s > budget {
@@ -794,10 +800,9 @@ func (h *history) tornEnumerate(w *world, tail *mFile, b, a int64, final *mEnt, 
 			cum += o.s
 			redSet[o.n] = true
 		}
-		reduced = mk("torn-reduced", redSet)
 	}
 	fullCuts := map[int64]bool{}
-	if reduced != nil {
+	if redSet != nil {
 		for _, i := range []int{0, 1, len(cuts) - 2, len(cuts) - 1} {
 			if i >= 0 && i < len(cuts) {
 				fullCuts[cuts[i]] = true
@@ -814,20 +819,69 @@ func (h *history) tornEnumerate(w *world, tail *mFile, b, a int64, final *mEnt, 
 			fullCuts[cuts[h.rng.Intn(len(cuts))]] = true
 		}
 	}
-	for ci, cut := range cuts {
-		tw := full
-		if reduced != nil && !fullCuts[cut] {
-			tw = reduced
-			h.st.add("truncation_points_on_reduced_directory", 1)
-		} else {
-			h.st.add("truncation_points_on_full_directory", 1)
+	// The cuts of one history are independent crash worlds; long enumerations
+	// are split into chunks that run concurrently, each on its own directories
+	// and with its own counters (merged afterwards).
+	const chunkLen = 384
+	nchunks := (len(cuts) + chunkLen - 1) / chunkLen
+	subs := make([]*history, nchunks)
+	work := func(hc *history, k int) {
+		lo, hi := k*chunkLen, min(len(cuts), (k+1)*chunkLen)
+		var full, reduced *tornWorld
+		for ci := lo; ci < hi; ci++ {
+			cut := cuts[ci]
+			var tw *tornWorld
+			if redSet != nil && !fullCuts[cut] {
+				if reduced == nil {
+					reduced = mk(fmt.Sprintf("torn-reduced-%d", k), redSet)
+				}
+				tw = reduced
+				hc.st.add("truncation_points_on_reduced_directory", 1)
+			} else {
+				if full == nil {
+					full = mk(fmt.Sprintf("torn-full-%d", k), fullSet)
+				}
+				tw = full
+				hc.st.add("truncation_points_on_full_directory", 1)
+			}
+			hc.cut = cut
+			hc.tornCase(tw, tail.name, srcTail, final.e.ID, b, a, cut, ci)
+			hc.st.add("truncation_points", 1)
+			if cut > b && cut < a {
+				hc.st.add("truncation_points_strictly_inside_record", 1)
+				hc.sink.Distinct(fmt.Sprintf("%s:%016x:%d", hc.drv.Name, hc.hash, cut-b))
+			}
 		}
-		h.cut = cut
-		h.tornCase(tw, tail.name, srcTail, final.e.ID, b, a, cut, ci)
-		h.st.add("truncation_points", 1)
-		if cut > b && cut < a {
-			h.st.add("truncation_points_strictly_inside_record", 1)
-			h.sink.Distinct(fmt.Sprintf("%s:%016x:%d", h.drv.Name, h.hash, cut-b))
+		for _, tw := range []*tornWorld{full, reduced} {
+			if tw != nil {
+				_ = os.RemoveAll(tw.dir)
+			}
+		}
+	}
+	var wg sync.WaitGroup
+	for k := 0; k < nchunks; k++ {
+		hc := *h
+		hc.st = Stats{}
+		hc.nviol = map[string]bool{}
+		subs[k] = &hc
+		if k == 0 {
+			continue
+		}
+		wg.Add(1)
+		go func(hc *history, k int) {
+			defer wg.Done()
+			chunkSem <- struct{}{}
+			defer func() { <-chunkSem }()
+			work(hc, k)
+		}(subs[k], k)
+	}
+	work(subs[0], 0) // chunk 0 runs on the caller's worker
+	wg.Wait()
+	h.st.add("harness_copy_errors", copyErrs.Load())
+	h.st.add("torn_enumeration_chunks", int64(nchunks))
+	for _, hc := range subs {
+		for k, v := range hc.st {
+			h.st.add(k, v)
 		}
 	}
 	h.cut = -1
